@@ -6,7 +6,7 @@ from fractions import Fraction
 
 import numpy as np
 
-from ..core import fmt, fmt_list, parse_rats, frac, err_kind, close, floats
+from ..core import fmt, fmt_list, parse_rats, frac, err_kind, close, vclose, floats
 from . import c01
 
 ID = "C03"
@@ -34,8 +34,15 @@ def cases(rng, tier):
     if tier == "quick":
         for c in c01.cases(rng, "quick"):
             yield c
-        for _ in range(300):
-            yield kernel_case(rng)
+        for _ in range(200):
+            k = kernel_case(rng)
+            yield k
+            # a twin with the same end points, sample count and exponent but different interior samples, evaluated in
+            # the same process (a result must not depend on earlier calls)
+            x = [Fraction(v) for v in k["x"]]
+            if len(x) >= 4:
+                inner = sorted(rng.sample([x[0] + (x[-1] - x[0]) * Fraction(j, 64) for j in range(1, 64)], len(x) - 2))
+                yield kernel_case(rng, [x[0]] + inner + [x[-1]], k["alpha"], k["rule"])
     elif tier == "thorough":
         for c in c01.cases(rng, "thorough"):
             yield c
@@ -102,7 +109,7 @@ def compare(c, io, mo):
         x, y, *_ = kvals(c)
         dm = [a - b for a, b in zip(mv, y)]
         di = [a - float(b) for a, b in zip(io["ok"], y)]
-        return None if close(di, dm) else f"displacement vectors differ: impl {di[:4]} model {[float(v) for v in dm[:4]]}"
+        return None if vclose(di, dm, 1e-9, ref=list(y) + [Fraction(c["I"])]) else f"displacement vectors differ: impl {di[:4]} model {[float(v) for v in dm[:4]]}"
     return c01.compare(c, io, mo)
 
 
@@ -139,7 +146,7 @@ def oracle(c, io):
     x, y, xref, yref = c01.vals(c)
     z = io["ok"]
     yf = floats(y)
-    scale = max(1.0, max(abs(v) for v in z))
+    scale = max([abs(v) for v in z] + [abs(v) for v in yf] + [1e-300])
     for j in range(len(x)):
         if (j <= F[0] or j >= F[-1] or j in F) and abs(z[j] - yf[j]) > 1e-9 * scale:
             return f"sample {j} (outside the fixed span or a fixed point) moved from {yf[j]} to {z[j]}"
@@ -147,7 +154,7 @@ def oracle(c, io):
         ctr = (x[e] + x[s]) / 2
         w = [1 - float(2 * abs(ctr - x[i]) / (x[e] - x[s])) ** c["alpha"] for i in range(s, e + 1)]
         d = [z[i] - yf[i] for i in range(s, e + 1)]
-        sc = max(1.0, max(abs(v) for v in d))
+        sc = max([abs(v) for v in d] + [1e-9 * scale])
         if any(u > 1e-9 * sc for u in d) and any(u < -1e-9 * sc for u in d):
             return f"window {s}..{e}: interior samples displaced in different directions: {d}"
         for i in range(len(d)):
@@ -155,7 +162,7 @@ def oracle(c, io):
                 if abs(d[i] * w[j] - d[j] * w[i]) > 1e-8 * sc:
                     return f"window {s}..{e}: displacements not proportional to the documented profile"
     again = io.get("again")
-    if not isinstance(again, list) or not close(again, [Fraction(v) for v in z], 1e-8):
+    if not isinstance(again, list) or not vclose(again, [Fraction(v) for v in z], 1e-8):
         return f"matching an already matched function changed it (or failed): {str(again)[:80]}"
     return None
 
